@@ -3,6 +3,8 @@
 From stdpp Require Import gmap.
 From Coq Require Import NArith.
 From RV Require Import Ingress.IngressModel Ingress.IngressProofs.
+From RV Require Import Ingress.IngressConcModel Ingress.IngressConcProofs.
+From RV Require Import Ingress.IngressSitesModel Ingress.IngressSitesProofs.
 Local Open Scope N_scope.
 
 (* Every id handed out by a registration (direct, or through find-or-register)
@@ -129,3 +131,227 @@ Example C14_router_example :
   reg_find_routers (fst (run (ops1 ++ OForRouter q :: ops2))) q = [2] /\
   fresh_ids (ops1 ++ OForRouter q :: ops2 ++ [OForRouter q]) = [1; 2; 3; 4; 5].
 Proof. vm_compute. repeat split; reflexivity. Qed.
+
+(* ================= update_info under concurrency (IngressConcModel.v) =================
+   Threads run programs of update_info calls on any ids against one shared map;
+   a schedule names the thread that takes the next step. [Atomic] = the code
+   (the whole body under the write lock: one step per call). *)
+
+(* EVERY schedule is a sequential history: the map after the schedule is the
+   map after the calls that took effect, applied one after another in trace
+   order, and the trace interleaves the threads' programs - per thread exactly
+   the calls it has got through, in program order. So the final info of every
+   id is the field-wise merge of all calls in an order consistent with every
+   thread's own order. *)
+Theorem C14_update_is_atomic : forall sched st,
+  let st' := fst (crun Atomic st sched) in
+  let tr := snd (crun Atomic st sched) in
+  c_infos st' = seq_apply (c_infos st) (map snd tr) /\
+  forall t th, c_threads st !! t = Some th ->
+    exists th', c_threads st' !! t = Some th' /\ t_todo th = calls_of t tr ++ t_todo th'.
+Proof. exact atomic_linearizable. Qed.
+Print Assumptions C14_update_is_atomic.
+
+(* "A metadata update keeps every field it does not supply", under every
+   interleaving: if no other thread supplies field f of id, then at every point
+   of every schedule that field holds what thread t's own completed calls made
+   it (the last value one of them supplied, else the initial value) - at the
+   end, and whenever t looks after a call of its own has returned. *)
+Theorem C14_update_own_field : forall sched st t f id,
+  (forall t' th c, t' <> t -> c_threads st !! t' = Some th -> c ∈ t_todo th ->
+                   c_id c = id -> fld_get f (c_new c) = None) ->
+  let st' := fst (crun Atomic st sched) in
+  let tr := snd (crun Atomic st sched) in
+  fld_of (c_infos st' !! id) f = last_supplied f id (calls_of t tr) (fld_of (c_infos st !! id) f).
+Proof. exact atomic_own_field. Qed.
+Print Assumptions C14_update_own_field.
+
+Theorem C14_update_reads_own_write : forall sched st t f id done c v,
+  (forall t' th c, t' <> t -> c_threads st !! t' = Some th -> c ∈ t_todo th ->
+                   c_id c = id -> fld_get f (c_new c) = None) ->
+  calls_of t (snd (crun Atomic st sched)) = done ++ [c] ->
+  c_id c = id -> fld_get f (c_new c) = Some v ->
+  fld_of (c_infos (fst (crun Atomic st sched)) !! id) f = Some v.
+Proof. exact atomic_reads_own_write. Qed.
+Print Assumptions C14_update_reads_own_write.
+
+(* no schedule of update_info calls, whatever they supply, unsets a field:
+   parent / address / AS / RIB view of an entry never disappear *)
+Theorem C14_update_keeps_set_fields : forall sched st f id,
+  is_some (fld_of (c_infos st !! id) f) = true ->
+  is_some (fld_of (c_infos (fst (crun Atomic st sched)) !! id) f) = true.
+Proof. exact atomic_keeps_set_fields. Qed.
+Print Assumptions C14_update_keeps_set_fields.
+
+(* while threads update descriptive fields of any ids in any interleaving, every
+   lookup keeps exactly its candidates *)
+Theorem C14_lookups_stable_under_updates : forall sched st,
+  (forall t th c, c_threads st !! t = Some th -> c ∈ t_todo th -> meta_only (c_new c) = true) ->
+  let m' := c_infos (fst (crun Atomic st sched)) in
+  forall s q x,
+    (x ∈ reg_find_peers (MkReg s m') q <-> x ∈ reg_find_peers (MkReg s (c_infos st)) q) /\
+    (x ∈ reg_find_routers (MkReg s m') q <-> x ∈ reg_find_routers (MkReg s (c_infos st)) q) /\
+    (forall p, x ∈ reg_ids_for_parent (MkReg s m') p <-> x ∈ reg_ids_for_parent (MkReg s (c_infos st)) p).
+Proof. exact atomic_lookups_stable. Qed.
+Print Assumptions C14_lookups_stable_under_updates.
+
+(* The counterfactual [Split] (merge into a copy fetched under the read lock,
+   write lock only for the swap) is refuted: two calls with disjoint fields on
+   one id, schedule read-read-write-write; both calls have returned and the
+   description thread 1 wrote is gone, though both sequential orders (and the
+   same schedule of the atomic variant) keep it. *)
+Theorem C14_update_split_refuted :
+  let i0 := MkInfo None (Some 1) (Some 9) None None None None None in
+  let name5 := MkInfo None None None None None None (Some 5) None in
+  let desc7 := MkInfo None None None None None None None (Some 7) in
+  let progs := [[MkCall 2 name5]; [MkCall 2 desc7]] in
+  let st0 := cinit {[ 2 := i0 ]} progs in
+  let st' := fst (crun Split st0 [0; 1; 1; 0]%nat) in
+  let tr := snd (crun Split st0 [0; 1; 1; 0]%nat) in
+  all_done st' = true /\
+  tr = [(1%nat, MkCall 2 desc7); (0%nat, MkCall 2 name5)] /\
+  fld_of (c_infos st' !! 2) FDesc = None /\
+  last_supplied FDesc 2 (calls_of 1 tr) None = Some 7 /\
+  fld_of (seq_apply (c_infos st0) [MkCall 2 name5; MkCall 2 desc7] !! 2) FDesc = Some 7 /\
+  fld_of (seq_apply (c_infos st0) [MkCall 2 desc7; MkCall 2 name5] !! 2) FDesc = Some 7 /\
+  fld_of (c_infos (fst (crun Atomic st0 [0; 1; 1; 0]%nat)) !! 2) FDesc = Some 7.
+Proof. exact split_loses_update. Qed.
+Print Assumptions C14_update_split_refuted.
+
+(* ... and it can lose a source's identity: the registration's update_info racing
+   with a descriptive one leaves an entry without parent, address and AS - the
+   unit has no child, the peer is not found (a returning peer gets a second id) *)
+Theorem C14_update_split_loses_identity :
+  let regi := MkInfo None (Some 1) (Some 9) (Some 65000) None None None None in
+  let name5 := MkInfo None None None None None None (Some 5) None in
+  let progs := [[MkCall 2 name5]; [MkCall 2 regi]] in
+  let st0 := cinit ∅ progs in
+  let st' := fst (crun Split st0 [0; 1; 1; 0]%nat) in
+  let st_a := fst (crun Atomic st0 [0; 1; 1; 0]%nat) in
+  all_done st' = true /\
+  reg_ids_for_parent (MkReg 3 (c_infos st')) 1 = [] /\
+  reg_find_peers (MkReg 3 (c_infos st')) regi = [] /\
+  reg_ids_for_parent (MkReg 3 (c_infos st_a)) 1 = [2] /\
+  reg_find_peers (MkReg 3 (c_infos st_a)) regi = [2].
+Proof. exact split_loses_identity. Qed.
+Print Assumptions C14_update_split_loses_identity.
+
+(* ================= the units' registration and lookup sites (IngressSitesModel.v) =================
+   [code_sites]: bmp router, bmp peer, bgp session, mrt dump peer, mrt update
+   peer, mrt state change - which fields each stores, which it asks with. *)
+
+(* the check on the masks is exact: agreeing masks make the query match the stored
+   entry for every source the unit knows enough about; disagreeing masks fail
+   on a fully described source *)
+Theorem C14_site_check_sound : forall k q st src,
+  compat k q st = true -> src_ok k src = true -> matcher k (proj q src) (proj st src) = true.
+Proof. exact compat_sound. Qed.
+Print Assumptions C14_site_check_sound.
+
+Theorem C14_site_check_complete : forall k q st,
+  compat k q st = false ->
+  let src := MkInfo (Some 1) (Some 1) (Some 1) (Some 1) (Some 1) (Some 1) (Some 1) (Some 1) in
+  src_ok k src = true /\ matcher k (proj q src) (proj st src) = false.
+Proof. exact compat_complete. Qed.
+Print Assumptions C14_site_check_complete.
+
+(* the sites of the code agree: within every class, what each registering site
+   stores is what each looking site asks for *)
+Theorem C14_code_sites_consistent : sites_consistent code_sites = true.
+Proof. exact code_sites_consistent. Qed.
+Print Assumptions C14_code_sites_consistent.
+
+(* A source filed by site s1 (fresh id) is found again, after ANY history of sites
+   handling any sources and descriptive updates, by every site s2 whose query
+   agrees with what s1 stored: the id is among s2's candidates, s2 files no
+   second id and leaves the register alone. *)
+Theorem C14_site_refound : forall ops1 s1 src ops2 s2 k,
+  forallb sdisc (ops1 ++ SSite s1 src :: ops2) = true ->
+  N.of_nat (length (ops1 ++ SSite s1 src :: ops2)) < two32 - 1 ->
+  s_lookup s2 = Some k -> compat k (s_query s2) (s_store s1) = true -> src_ok k src = true ->
+  let r1 := fst (srun ops1) in
+  site_fresh r1 s1 src = true ->
+  let r2 := fst (srun_from (fst (site_step r1 s1 src)) ops2) in
+  snd (site_step r1 s1 src) = Some (serial r1) /\
+  serial r1 ∈ site_candidates r2 s2 src /\
+  site_fresh r2 s2 src = false /\ fst (site_step r2 s2 src) = r2 /\
+  exists id', snd (site_step r2 s2 src) = Some id' /\ id' ∈ site_candidates r2 s2 src.
+Proof. exact site_registered_refound. Qed.
+Print Assumptions C14_site_refound.
+
+(* ... and an id a site's lookup found stays a candidate of that lookup *)
+Theorem C14_site_found_refound : forall ops1 s1 src ops2 id,
+  forallb sdisc (ops1 ++ SSite s1 src :: ops2) = true ->
+  N.of_nat (length (ops1 ++ SSite s1 src :: ops2)) < two32 - 1 ->
+  let r1 := fst (srun ops1) in
+  id ∈ site_candidates r1 s1 src ->
+  let r2 := fst (srun_from (fst (site_step r1 s1 src)) ops2) in
+  fst (site_step r1 s1 src) = r1 /\
+  id ∈ site_candidates r2 s1 src /\ site_fresh r2 s1 src = false /\ fst (site_step r2 s1 src) = r2.
+Proof. exact site_found_refound. Qed.
+Print Assumptions C14_site_found_refound.
+
+(* for the code: whichever site of a unit files a source, every looking site of the
+   same class finds it, after any history *)
+Theorem C14_code_sites_refound : forall ops1 s1 src ops2 s2 k,
+  s1 ∈ code_sites -> s2 ∈ code_sites -> s_class s2 = s_class s1 ->
+  s_registers s1 = true -> s_lookup s2 = Some k -> src_ok k src = true ->
+  forallb sdisc (ops1 ++ SSite s1 src :: ops2) = true ->
+  N.of_nat (length (ops1 ++ SSite s1 src :: ops2)) < two32 - 1 ->
+  let r1 := fst (srun ops1) in
+  site_fresh r1 s1 src = true ->
+  let r2 := fst (srun_from (fst (site_step r1 s1 src)) ops2) in
+  serial r1 ∈ site_candidates r2 s2 src /\ site_fresh r2 s2 src = false /\ fst (site_step r2 s2 src) = r2.
+Proof. exact code_sites_refound. Qed.
+Print Assumptions C14_code_sites_refound.
+
+(* peer level, under the discipline [sok_run] (sites well formed; a site that files
+   ids without looking - the table dump, known finding C16-1 - is only handed
+   peers that have no id): the id is the ONLY candidate and the one s2 uses *)
+Theorem C14_site_refound_unique : forall ops1 s1 src ops2 s2,
+  sok_run reg_new (ops1 ++ SSite s1 src :: ops2) = true ->
+  N.of_nat (length (ops1 ++ SSite s1 src :: ops2)) < two32 - 1 ->
+  s_lookup s2 = Some MPeer -> compat MPeer (s_query s2) (s_store s1) = true -> src_ok MPeer src = true ->
+  let r1 := fst (srun ops1) in
+  site_fresh r1 s1 src = true ->
+  let r2 := fst (srun_from (fst (site_step r1 s1 src)) ops2) in
+  site_candidates r2 s2 src = [serial r1] /\ site_step r2 s2 src = (r2, Some (serial r1)).
+Proof. exact site_refound_unique. Qed.
+Print Assumptions C14_site_refound_unique.
+
+(* the counterfactual dump site that also stores a RIB view (seeded C14-b2) fails the
+   check, and for cause: dump, then an update and a state change of the same
+   peer - second id 3 (two children of the unit); with the code's dump site: id 2 throughout *)
+Theorem C14_dump_rib_refuted :
+  let src := MkInfo None (Some 1) (Some 10) (Some 65010) (Some 0) (Some 3) None None in
+  let r0 := MkReg 2 ∅ in
+  pair_ok site_mrt_update site_mrt_dump_rib = false /\
+  sites_consistent (site_mrt_dump_rib :: code_sites) = false /\
+  snd (srun_from r0 [SSite site_mrt_dump_rib src; SSite site_mrt_update src; SSite site_mrt_state src])
+    = [Some 2; Some 3; Some 3] /\
+  length (reg_ids_for_parent (fst (srun_from r0 [SSite site_mrt_dump_rib src; SSite site_mrt_update src])) 1) = 2%nat /\
+  snd (srun_from r0 [SSite site_mrt_dump src; SSite site_mrt_update src; SSite site_mrt_state src])
+    = [Some 2; Some 2; Some 2] /\
+  reg_ids_for_parent (fst (srun_from r0 [SSite site_mrt_dump src; SSite site_mrt_update src])) 1 = [2].
+Proof. exact dump_rib_refuted. Qed.
+Print Assumptions C14_dump_rib_refuted.
+
+(* non-vacuity of the site theorems: MRT unit 1 imports dumps of two peers, a BMP
+   peer and BGP sessions with the same address and AS come and go, a description
+   is updated; [sok_run] holds; update file and state change use the dump's id 2 *)
+Example C14_sites_example :
+  let p1 := MkInfo None (Some 1) (Some 10) (Some 65010) None (Some 3) None None in
+  let p2 := MkInfo None (Some 1) (Some 11) (Some 65010) None (Some 3) None None in
+  let bp := MkInfo None (Some 5) (Some 10) (Some 65010) (Some 0) None None None in
+  let bg := MkInfo None None (Some 10) (Some 65010) None None (Some 9) None in
+  let ops1 := [SSite site_bgp_session bg] in
+  let ops2 := [SSite site_mrt_dump p2; SSite site_bmp_peer bp; SSite site_bgp_session bg;
+               SMeta 2 (MkInfo None None None None None None (Some 4) None);
+               SSite site_mrt_update p2] in
+  let ops := ops1 ++ SSite site_mrt_dump p1 :: ops2 in
+  sok_run reg_new ops = true /\
+  site_fresh (fst (srun ops1)) site_mrt_dump p1 = true /\
+  serial (fst (srun ops1)) = 2 /\
+  snd (srun (ops ++ [SSite site_mrt_update p1; SSite site_mrt_state p1])) =
+    [Some 1; Some 2; Some 3; Some 4; Some 5; None; Some 3; Some 2; Some 2].
+Proof. exact sites_example. Qed.
